@@ -1,11 +1,12 @@
 #!/bin/bash
 # evaluates every delivered seed under /tmp/seed/*/SEED/{a,b} not yet in the results file
-res=/tmp/seed/results.jsonl
+base=${SEEDBASE:-/tmp/seed}
+res=$base/results.jsonl
 touch $res
-for d in /tmp/seed/C*/SEED/[ab]; do
+for d in $base/C*/SEED/[ab]; do
   [ -f "$d/meta.json" ] || continue
   [ "${FORCE:-}" = 1 ] || grep -q "\"seed\":\"$d\"" $res && continue
-  id=$(echo $d | sed 's#/tmp/seed/\(C[0-9]*\)/.*#\1#')
+  id=$(echo $d | sed 's#.*/\(C[0-9][0-9]\)/SEED/.*#\1#')
   /verif/tools/seed_eval.sh $d $id >> $res
   tail -1 $res | cut -c1-420
 done
